@@ -417,7 +417,8 @@ LEVEL_TEXT = ("Machine-checked proof (Coq 8.16) over executable models of (1) th
               "(2) the socket shell around it (lib/src/udp.rs drain_outputs and its handlers, shadow flow table, per-flow "
               "upstream sockets, write queues, timer, close_all_flows) composed with the manager: drain_outputs always "
               "terminates, upstream sockets opened = closed + open under every handler, at rest every socket belongs to a "
-              "live established flow of the incarnation it was opened for and is connected to that flow's backend, NAT "
+              "live established flow of the incarnation it was opened for and is connected to that flow's backend, a routed "
+              "source's datagrams can only be written to its own flow's socket, NAT "
               "return reaches only that incarnation's client, close_all_flows leaks no socket, write queues never "
               "duplicate or reorder. Both models are tied to /repo on every run: source translator, differential run of "
               "the real UdpManager and WriteQueue against the extracted core model, and the black-box scenarios (real "
@@ -425,9 +426,10 @@ LEVEL_TEXT = ("Machine-checked proof (Coq 8.16) over executable models of (1) th
               "evaluated on the implementation in both tiers.")
 LEVEL_NOTE = ("Trusted: Coq kernel; extraction (ExtrOcamlBasic) and ocaml/driver.ml for the correspondence only; the "
               "affinity hash, the load balancer's choice, connect() and per-send outcomes are oracles the theorems quantify "
-              "over; time is unbounded; mio registration is assumed to succeed. Not proved (compared with the model on "
-              "every e2e scenario instead): that on_send_to_backend selects the socket of the datagram's own flow through "
-              "in_flight_flow / the shadow table. Not covered: SCM hand-off of a UDP listener with live flows; WouldBlock on "
+              "over; time is unbounded; mio registration is assumed to succeed. Socket selection is proved as a state property at rest "
+              "(the shadow table maps a routed source to its own flow's socket or to nothing, never to another flow's); that "
+              "the entry is present (delivery) and the new-flow path through in_flight_flow are compared with the model on "
+              "every e2e scenario, not proved. Not covered: SCM hand-off of a UDP listener with live flows; WouldBlock on "
               "real sockets (the write queue is driven in-process through the cfg(sozu_verif) hook 0407268 and in the "
               "model with scripted send outcomes).")
 TECHNIQUE = "Rocq/Coq proof over an executable Gallina model + differential correspondence (extracted OCaml vs real crate)"
